@@ -132,7 +132,7 @@ def ref_load(spec, datum, strict: bool, env):  # noqa: C901, PLR0911, PLR0912, P
             with warnings.catch_warnings():
                 warnings.simplefilter("ignore", FutureWarning)   # "Possible nested set": a warning, not a refusal
                 return _acc(re.compile(datum))
-        except re.error:
+        except (re.error, ValueError):   # ValueError: incompatible inline flags -- not a pattern either
             return _R
         except (RecursionError, OverflowError):
             return _U
